@@ -57,3 +57,54 @@ VH_OP(qattr) {
   for (int c = 0; c < nc; ++c) mins.push_back(fb(t.min_value(c)));
   return "ok " + std::to_string(fb(t.range())) + " " + vh::joinl(mins) + " " + vh::joinl(kv) + " " + vh::joinl(dec);
 }
+
+// ---- histories on ONE transform object (a transform re-parameterised between uses must behave like a fresh one)
+#include "draco/attributes/attribute_octahedron_transform.h"
+
+static std::string octa_use(AttributeOctahedronTransform &t, const std::vector<int64_t> &vb) {
+  const int np = static_cast<int>(vb.size()) / 3;
+  PointAttribute att;
+  att.Init(GeometryAttribute::NORMAL, 3, DT_FLOAT32, false, np);
+  for (int i = 0; i < np; ++i) {
+    float row[3];
+    for (int c = 0; c < 3; ++c) row[c] = bf(static_cast<uint32_t>(vb[i * 3 + c]));
+    att.SetAttributeValue(AttributeValueIndex(i), row);
+  }
+  std::unique_ptr<PointAttribute> portable = t.InitTransformedAttribute(att, np);
+  if (!t.TransformAttribute(att, {}, portable.get())) return "fail-transform";
+  std::vector<uint32_t> st;
+  for (int i = 0; i < np; ++i) {
+    uint32_t v[2];
+    portable->GetValue(AttributeValueIndex(i), v);
+    st.push_back(v[0]);
+    st.push_back(v[1]);
+  }
+  PointAttribute target;
+  target.Init(GeometryAttribute::NORMAL, 3, DT_FLOAT32, false, np);
+  if (!t.InverseTransformAttribute(*portable, &target)) return "fail-inverse";
+  std::vector<uint32_t> dec;
+  for (int i = 0; i < np; ++i) {
+    float row[3];
+    target.GetValue(AttributeValueIndex(i), row);
+    for (int c = 0; c < 3; ++c) dec.push_back(fb(row[c]));
+  }
+  return vh::joinl(st) + " " + vh::joinl(dec);
+}
+
+// oattr_hist <qCSV> <vectorBitsCSV>: one AttributeOctahedronTransform object, SetParameters(q_i) + transform + inverse
+//   for each q_i in turn; then the last q on a fresh object
+// -> <stCSV decBitsCSV of every use, separated by " | "> || <fresh object, last q>
+VH_OP(oattr_hist) {
+  auto qs = vh::ilist(a[1]);
+  auto vb = vh::ilist(a[2]);
+  AttributeOctahedronTransform t;
+  std::string out;
+  for (size_t i = 0; i < qs.size(); ++i) {
+    t.SetParameters(static_cast<int>(qs[i]));
+    if (i) out += " | ";
+    out += octa_use(t, vb);
+  }
+  AttributeOctahedronTransform fresh;
+  fresh.SetParameters(static_cast<int>(qs.back()));
+  return out + " || " + octa_use(fresh, vb);
+}
